@@ -58,7 +58,8 @@ def det(A):
     return tot
 def linsolve(A, B):
     """in-place B := A^{-1} B; solution entries are fresh symbols X with A X = B (polynomial definition)"""
-    import pysym, z3
+    from . import pysym
+    import z3
     n = A.size[0]
     X = [[pysym.SR(z3.Real(f'__x{id(B)%9973}_{i}_{c}')) for c in range(B.size[1])] for i in range(n)]
     AX = (A * M(X))
